@@ -3729,7 +3729,9 @@ def _ff_export(src, out):
                "def exportMode (overwrite : Bool) : String := %s\n"
                % (FF_REL, body[0].lineno, _ff_mode_by_overwrite(body[0], "export()")))
     steps = []
-    for s in body[1:]:
+    unwind = []
+
+    def one(s):
         u = ast.unparse(s)
         if isinstance(s, ast.Assign) and ast.unparse(s.targets[0]) == "pt_file":
             _ff_ctor_passes_mode(s.value, "export()")
@@ -3749,11 +3751,55 @@ def _ff_export(src, out):
             steps.append("ExportStep.loopCap")
         elif u == "pt_file.close()":
             steps.append("ExportStep.close")
+        elif isinstance(s, ast.Try):
+            # normal path: body, else, finally in order; the path of an exception: the
+            # close()/remove() calls of the handlers and of the finally block
+            if "ExportStep.create" not in steps:
+                raise Untranslatable("export(): try statement around the constructor")
+            for x in list(s.body) + list(s.orelse):
+                one(x)
+            for h in s.handlers:
+                unwind.extend(_ff_unwind_calls(h.body))
+            unwind.extend(_ff_unwind_calls(s.finalbody))
+            for x in s.finalbody:
+                one(x)
         else:
             raise Untranslatable("export(): statement %s" % u)
-    out.append("/-- %s:%d  SimpleProcessTensor.export: statements in order -/\n"
+    for s in body[1:]:
+        one(s)
+    out.append("/-- %s:%d  SimpleProcessTensor.export: statements in order (normal path) -/\n"
                "def exportSteps : List ExportStep := [%s]\n"
                % (FF_REL, fn.lineno, ", ".join(steps)))
+    out.append("/-- %s:%d  SimpleProcessTensor.export: close()/remove() calls in except/finally "
+               "blocks around the tensor writes (run when an exception unwinds) -/\n"
+               "def exportUnwind : List UnwindStep := [%s]\n"
+               % (FF_REL, fn.lineno, ", ".join(unwind)))
+
+
+def _ff_unwind_calls(stmts):
+    """`<x>.close()` / `<x>.remove()` calls anywhere inside the given handler statements
+    (not on the raw h5py handle `self._f`)"""
+    found = []
+    for st in stmts:
+        for n in ast.walk(st):
+            if isinstance(n, ast.Call) and isinstance(n.func, ast.Attribute) and \
+                    n.func.attr in ("close", "remove") and not n.args and not n.keywords:
+                recv = ast.unparse(n.func.value)
+                if recv in ("self._f", "os"):
+                    continue
+                found.append("UnwindStep." + n.func.attr)
+    return found
+
+
+def _ff_handlers_of(fn):
+    """unwind calls of every try statement (and `with`-less) inside a function"""
+    found = []
+    for n in ast.walk(fn):
+        if isinstance(n, ast.Try):
+            for h in n.handlers:
+                found.extend(_ff_unwind_calls(h.body))
+            found.extend(_ff_unwind_calls(n.finalbody))
+    return found
 
 
 def _ff_create_file(src, out):
@@ -3933,6 +3979,136 @@ def _ff_pttempo(src, out):
                % (rel, ifs[0].lineno, _ff_mode_by_overwrite(ifs[0], "_init_file_process_tensor")))
 
 
+def _ff_setter(src, out, prop, lean_name):
+    """FileProcessTensor.<prop>.setter"""
+    cls = src.function(FF_REL, "FileProcessTensor")
+    fns = [m for m in cls.body if isinstance(m, ast.FunctionDef) and m.name == prop and
+           any(ast.unparse(d) == prop + ".setter" for d in m.decorator_list)]
+    if len(fns) != 1:
+        raise Untranslatable("FileProcessTensor.%s.setter not found" % prop)
+    fn = fns[0]
+    arg = [a.arg for a in fn.args.args if a.arg != "self"]
+    if len(arg) != 1:
+        raise Untranslatable("%s.setter: arguments" % prop)
+    arg = arg[0]
+    body = _ff_body(fn)
+    fields = {"_name": "MetaField.name", "_description": "MetaField.description"}
+    # (1) `if arg is None: arg = "<default>" else: assert ...`
+    if not body or not isinstance(body[0], ast.If) or ast.unparse(body[0].test) != arg + " is None" \
+            or len(body[0].body) != 1 or not isinstance(body[0].body[0], ast.Assign) \
+            or ast.unparse(body[0].body[0].targets[0]) != arg \
+            or not isinstance(body[0].body[0].value, ast.Constant) \
+            or any(not isinstance(x, ast.Assert) for x in body[0].orelse):
+        raise Untranslatable("%s.setter: None-default statement" % prop)
+    default = _ff_lean_str(body[0].body[0].value.value)
+    # (2) `self._x = arg`
+    if len(body) < 2 or not isinstance(body[1], ast.Assign) or ast.unparse(body[1].value) != arg \
+            or attr_chain(body[1].targets[0]) is None or len(attr_chain(body[1].targets[0])) != 2 \
+            or attr_chain(body[1].targets[0])[1] not in fields:
+        raise Untranslatable("%s.setter: assignment of the private attribute" % prop)
+    field = fields[attr_chain(body[1].targets[0])[1]]
+    # (3) `if <guard>: self._f.attrs[<key>] = self._y`
+    if len(body) != 3 or not isinstance(body[2], ast.If) or body[2].orelse or len(body[2].body) != 1:
+        raise Untranslatable("%s.setter: guarded write" % prop)
+    g = body[2]
+    w = g.body[0]
+    if not (isinstance(w, ast.Assign) and len(w.targets) == 1 and _ff_is_attr_sub(w.targets[0])
+            and w.targets[0].slice.value in FF_ATTRS and attr_chain(w.value) is not None
+            and len(attr_chain(w.value)) == 2 and attr_chain(w.value)[0] == "self"
+            and attr_chain(w.value)[1] in fields):
+        raise Untranslatable("%s.setter: written attribute %s" % (prop, ast.unparse(w)))
+    guard = _ff_flag_expr(g.test, {"self._write": "write", "self._f is not None": "isOpen"})
+    out.append("/-- %s:%d  FileProcessTensor.%s.setter: `%s = %s` then `if %s: %s` -/\n"
+               "def %s : SetterSpec :=\n"
+               "  { field := %s, noneDefault := %s, guard := fun write isOpen => %s,\n"
+               "    attr := %s, src := %s }\n"
+               % (FF_REL, fn.lineno, prop, ast.unparse(body[1].targets[0]), arg,
+                  ast.unparse(g.test), ast.unparse(w), lean_name, field, default, guard,
+                  FF_ATTRS[w.targets[0].slice.value], fields[attr_chain(w.value)[1]]))
+
+
+def _ff_pt_init(src, out, qual, lean_name, ctor):
+    """PtTempo._init_simple_process_tensor / _init_file_process_tensor: what is handed to the
+    process-tensor constructor"""
+    rel = "oqupy/pt_tempo.py"
+    fn = src.function(rel, qual)
+    body = _ff_body(fn)
+    if not body or ast.unparse(body[0]) != "unitary = self._bath.unitary_transform":
+        raise Untranslatable("%s: does not start with unitary = self._bath.unitary_transform" % qual)
+    ifs = [x for x in body if isinstance(x, ast.If) and "unitary" in ast.unparse(x.test)]
+    if len(ifs) != 1:
+        raise Untranslatable("%s: transform selection" % qual)
+    node = ifs[0]
+
+    def uexpr(e):
+        u = ast.unparse(e)
+        if u == "unitary":
+            return "UExpr.u"
+        if u in ("unitary.conjugate().T", "unitary.conj().T", "unitary.T.conjugate()", "unitary.T.conj()"):
+            return "UExpr.udag"
+        raise Untranslatable("%s: operand %s" % (qual, u))
+
+    def lrs(stmts, name):
+        hits = [x for x in stmts if isinstance(x, ast.Assign) and ast.unparse(x.targets[0]) == name]
+        if len(hits) != 1:
+            raise Untranslatable("%s: assignment of %s" % (qual, name))
+        v = hits[0].value
+        if isinstance(v, ast.Attribute) and v.attr == "T" and isinstance(v.value, ast.Call) and \
+                attr_chain(v.value.func) == ["left_right_super"] and len(v.value.args) == 2 and \
+                not v.value.keywords:
+            return "(%s, %s)" % (uexpr(v.value.args[0]), uexpr(v.value.args[1]))
+        raise Untranslatable("%s: %s = %s" % (qual, name, ast.unparse(v)))
+    if len(node.body) != 2 or len(node.orelse) != 2:
+        raise Untranslatable("%s: transform branches" % qual)
+    tin, tout = lrs(node.body, "transform_in"), lrs(node.body, "transform_out")
+    else_none = sorted(ast.unparse(x) for x in node.orelse) == ["transform_in = None",
+                                                               "transform_out = None"]
+    calls = [x for x in body if isinstance(x, ast.Assign) and
+             attr_chain(x.targets[0]) == ["self", "_process_tensor"]]
+    if len(calls) != 1 or not isinstance(calls[0].value, ast.Call) or \
+            attr_chain(calls[0].value.func) != [ctor] or calls[0].value.args:
+        raise Untranslatable("%s: constructor call" % qual)
+    kws = sorted((k.arg, ast.unparse(k.value)) for k in calls[0].value.keywords
+                 if k.arg not in ("mode", "filename"))
+    # nothing else may touch the transforms
+    for x in body:
+        if x is node or x is calls[0] or x is body[0]:
+            continue
+        if any(isinstance(n, ast.Name) and n.id in ("transform_in", "transform_out", "unitary")
+               for n in ast.walk(x)):
+            raise Untranslatable("%s: statement %s" % (qual, ast.unparse(x)))
+    out.append("/-- %s:%d  PtTempo.%s -/\ndef %s : PtInitSpec :=\n"
+               "  { cond := %s, tin := %s, tout := %s, elseNone := %s,\n    kwargs := [%s] }\n"
+               % (rel, fn.lineno, qual.split(".")[-1], lean_name,
+                  _ff_lean_str(ast.unparse(node.test)), tin, tout, "true" if else_none else "false",
+                  ", ".join("(%s, %s)" % (_ff_lean_str(a), _ff_lean_str(b)) for a, b in kws)))
+
+
+def _ff_pttempo_unwind(src, out):
+    found = []
+    where = []
+    for rel, quals in (("oqupy/pt_tempo.py", ["pt_tempo_compute", "PtTempo.compute",
+                                               "PtTempo.get_process_tensor"]),
+                       ("oqupy/backends/pt_tempo_backend.py",
+                        ["PtTempoBackend.update_process_tensor", "PtTempoBackend.compute_step",
+                         "PtTempoBackend.initialize"]),
+                       (FF_REL, ["FileProcessTensor.compute_caps", "FileProcessTensor.set_mpo_tensor",
+                                 "FileProcessTensor.set_cap_tensor",
+                                 "FileProcessTensor.set_initial_tensor", "_set_data_and_shape"])):
+        for q in quals:
+            fn = src.function(rel, q)
+            h = _ff_handlers_of(fn)
+            if h:
+                where.append("%s:%s" % (rel, q))
+            found.extend(h)
+    out.append("/-- close()/remove() calls in except/finally blocks on the file-backed PT-TEMPO "
+               "writing path (pt_tempo_compute, PtTempo.compute/get_process_tensor, "
+               "PtTempoBackend.update_process_tensor/compute_step/initialize, "
+               "FileProcessTensor.compute_caps/set_*_tensor, _set_data_and_shape)%s -/\n"
+               "def ptTempoUnwind : List UnwindStep := [%s]\n"
+               % ("; found in " + ", ".join(where) if where else "", ", ".join(found)))
+
+
 EXTRA_IMPORTS["FileFlags"] = "import OQuPyVerif.Model.PTFile\n"
 
 
@@ -3947,6 +4123,13 @@ def frag_fileflags(src):
     _ff_create_file(src, out)
     _ff_simple_set_initial(src, out)
     _ff_pttempo(src, out)
+    _ff_setter(src, out, "name", "nameSetter")
+    _ff_setter(src, out, "description", "descrSetter")
+    _ff_pt_init(src, out, "PtTempo._init_simple_process_tensor", "ptTempoSimpleInit",
+                "SimpleProcessTensor")
+    _ff_pt_init(src, out, "PtTempo._init_file_process_tensor", "ptTempoFileInit",
+                "FileProcessTensor")
+    _ff_pttempo_unwind(src, out)
     out.append("/-- everything above as one record (the model is a function of it) -/\n"
                "def flags : Flags :=\n"
                "  { readWarn := readWarn, closeReset := closeReset, closeValue := closeValue,\n"
@@ -3955,7 +4138,9 @@ def frag_fileflags(src):
                "    exportMode := exportMode, exportSteps := exportSteps, createSteps := createSteps,\n"
                "    readAttrs := readAttrs, readArrs := readArrs, readVs := readVs,\n"
                "    simpleSetInitial := simpleSetInitial, ptTempoChoice := ptTempoChoice,\n"
-               "    ptTempoMode := ptTempoMode }\n")
+               "    ptTempoMode := ptTempoMode, nameSetter := nameSetter, descrSetter := descrSetter,\n"
+               "    ptTempoSimpleInit := ptTempoSimpleInit, ptTempoFileInit := ptTempoFileInit,\n"
+               "    exportUnwind := exportUnwind, ptTempoUnwind := ptTempoUnwind }\n")
     return "\n".join(out)
 # end of FileFlags
 
@@ -4283,6 +4468,72 @@ class _PgClass:
             self.err(st, "__init__: statement `%s`" % ast.unparse(st)[:60])
 
 
+# Part 3 -- every place where the library itself starts threads or processes, in all of
+# oqupy/**/*.py: calls of ThreadPoolExecutor / ProcessPoolExecutor / Pool / Thread / Timer /
+# Process / Popen / fork / start_new_thread (by the last name of the callee).  Recorded per
+# site: what is created and how it is held --
+#     with X(...) [as e]: ...                          -> withStmt
+#     self._timer = Timer(...) in a PROGRESS_DICT class -> progressProtocol (part 2 covers it)
+#     self.<attr> = X(...)  /  module level assignment  -> stored
+#     <local name> = X(...)                             -> localVar
+#     anything else                                     -> other
+PG_SPAWN = {"ThreadPoolExecutor": "threadPool", "ProcessPoolExecutor": "processPool",
+            "Pool": "processPool", "Thread": "thread", "Timer": "timer", "Process": "process",
+            "Popen": "other", "fork": "other", "start_new_thread": "other",
+            "start_new": "other"}
+
+
+def _pg_spawn_sites(src, progress_classes):
+    root = os.path.join(src.repo, "oqupy")
+    rels = []
+    for d, _dirs, files in os.walk(root):
+        for fn in files:
+            if fn.endswith(".py"):
+                rels.append(os.path.relpath(os.path.join(d, fn), src.repo))
+    sites = []
+    for rel in sorted(rels):
+        tree = src.tree(rel)
+        parent = {}
+        for n in ast.walk(tree):
+            for ch in ast.iter_child_nodes(n):
+                parent[id(ch)] = n
+        for n in ast.walk(tree):
+            if not isinstance(n, ast.Call):
+                continue
+            f = n.func
+            name = f.id if isinstance(f, ast.Name) else f.attr if isinstance(f, ast.Attribute) \
+                else None
+            if name not in PG_SPAWN:
+                continue
+            # enclosing function / class
+            quals, cls = [], None
+            q = parent.get(id(n))
+            while q is not None:
+                if isinstance(q, (ast.FunctionDef, ast.AsyncFunctionDef)):
+                    quals.append(q.name)
+                elif isinstance(q, ast.ClassDef):
+                    quals.append(q.name)
+                    cls = cls or q.name
+                q = parent.get(id(q))
+            func = ".".join(reversed(quals)) or "<module>"
+            par = parent.get(id(n))
+            scope = "other"
+            if isinstance(par, ast.withitem) and par.context_expr is n:
+                scope = "withStmt"
+            elif isinstance(par, ast.Assign) and par.value is n and len(par.targets) == 1:
+                tgt = par.targets[0]
+                if isinstance(tgt, ast.Attribute):
+                    if _pg_self_attr(tgt, "_timer") and name == "Timer" and cls in progress_classes:
+                        scope = "progressProtocol"
+                    else:
+                        scope = "stored"
+                elif isinstance(tgt, ast.Name):
+                    scope = "localVar" if quals else "stored"
+            sites.append((rel, func, n.lineno, PG_SPAWN[name], scope))
+    return sites
+
+
+
 def _pg_lean_list(items):
     return "[" + ", ".join(items) + "]"
 
@@ -4394,6 +4645,15 @@ def frag_progressguard(src):
                      ("printStatus", ps)):
             out.append("  %s := %s" % (m, _pg_lean_list([str(o[1]) for o in l])))
         out.append("")
+    # ---- part 3: threads / processes started anywhere in the library
+    sites = _pg_spawn_sites(src, {c for _k, c in kinds})
+    out.append("/-- every construction of a thread / timer / process / executor pool in oqupy/, "
+               "and how the object is held -/")
+    out.append("def spawnTable : List SpawnSite := [")
+    out.append(",\n".join(
+        '  { file := "%s", func := "%s", line := %d, kind := .%s, scope := .%s }' % r
+        for r in sites))
+    out.append("]\n")
     out.append("/-- PROGRESS_DICT -/")
     out.append("def progressKinds : List (String × Protocol × ProtocolLines) := "
                + _pg_lean_list(['("%s", %sProtocol, %sLines)' % (k, k, k) for k, _ in kinds]))
@@ -5495,6 +5755,185 @@ def _gw_chain_rule(src, out):
                "def halfStepRows : Nat × Nat := (0, 1)\n" % (rel2, fn.lineno))
 
 
+# ---- GradWiring, part 2: memoisation inside ParameterizedSystem's propagator factories ----
+#
+# For `get_propagators`, `halfstep_propagator_derivative`, `get_propagator_derivatives` the
+# results are closures; what a closure returns can depend on its own parameters and on the
+# parameters of every enclosing function (besides `self`).  A *memo site* is any use of a
+# container as a cache inside these methods:
+#     self.<c>[k]   |   k in / not in self.<c>   |   self.<c>.get(k, ..) / .setdefault(k, ..)
+#     the same with a local name <c> that was bound to `{}` / `dict()` in an enclosing function
+#     a nested function decorated with lru_cache / cache  (key = its parameters)
+# For each site the translator records the variables the key is built from (local names are
+# resolved through their single assignment) and the variables the cached value can depend on:
+# the parameters (referenced anywhere in the method) of the functions between the place where
+# the container lives (the object for `self.<c>`: every function of the method) and the site.
+# Anything cache-like it cannot resolve is Untranslatable.
+
+GW_MEMO_PREAMBLE = '''/-- a cache inside one of ParameterizedSystem's propagator factories -/
+structure MemoSite where
+  method : String
+  container : String
+  line : Nat
+  /-- variables the key is built from -/
+  keyVars : List String
+  /-- variables the cached value can depend on -/
+  dependsOn : List String
+  deriving DecidableEq, Repr
+'''
+
+_GW_MEMO_METHODS = ["get_propagators", "halfstep_propagator_derivative", "get_propagator_derivatives"]
+_GW_BUILTINS = {"tuple", "list", "float", "int", "str", "repr", "hash", "round", "np", "len",
+                "frozenset", "complex", "id", "sorted", "map", "zip", "range", "enumerate", "abs"}
+
+
+def _gw_func_params(fn):
+    a = fn.args
+    names = [x.arg for x in a.posonlyargs + a.args + a.kwonlyargs]
+    if a.vararg:
+        names.append(a.vararg.arg)
+    if a.kwarg:
+        names.append(a.kwarg.arg)
+    return [n for n in names if n != "self"]
+
+
+def _gw_own_nodes(fn):
+    """nodes of fn's body that are not inside a nested def / lambda"""
+    out = []
+
+    def walk(n):
+        for ch in ast.iter_child_nodes(n):
+            if isinstance(ch, (ast.FunctionDef, ast.AsyncFunctionDef)):
+                out.append(ch)          # the def itself (decorators matter), not its body
+                continue
+            out.append(ch)
+            walk(ch)                    # lambdas are treated as part of the enclosing function
+    for s in fn.body:
+        out.append(s)
+        if not isinstance(s, (ast.FunctionDef, ast.AsyncFunctionDef)):
+            walk(s)
+    return out
+
+
+def _gw_key_roots(expr, fn, depth=0):
+    """variables a key expression is built from, local names resolved through their assignment"""
+    if depth > 6:
+        raise Untranslatable("memo key: assignment chain too deep")
+    roots = []
+    for n in ast.walk(expr):
+        if isinstance(n, ast.Name) and isinstance(n.ctx, ast.Load) and n.id not in _GW_BUILTINS:
+            assigns = [a for a in _gw_own_nodes(fn) if isinstance(a, ast.Assign)
+                       and len(a.targets) == 1 and isinstance(a.targets[0], ast.Name)
+                       and a.targets[0].id == n.id]
+            if n.id in _gw_func_params(fn) or not assigns:
+                roots.append(n.id)
+            elif len(assigns) == 1:
+                roots += _gw_key_roots(assigns[0].value, fn, depth + 1)
+            else:
+                raise Untranslatable("memo key: `%s` is assigned more than once" % n.id)
+        elif isinstance(n, ast.Attribute) and isinstance(n.value, ast.Name) and n.value.id == "self":
+            roots.append("self." + n.attr)
+    out = []
+    for r in roots:
+        if r not in out and r != "self":
+            out.append(r)
+    return out
+
+
+def _gw_is_empty_dict(e):
+    return (isinstance(e, ast.Dict) and not e.keys) or \
+        (isinstance(e, ast.Call) and attr_chain(e.func) in (["dict"], ["OrderedDict"],
+                                                            ["collections", "OrderedDict"]) and not e.args)
+
+
+def _gw_memo_sites(src, out):
+    rel = "oqupy/system.py"
+    sites = []
+    cls = src.function(rel, "ParameterizedSystem")
+    # attributes of self that are bound to an empty dict anywhere in the class
+    dict_attrs = set()
+    for n in ast.walk(cls):
+        if isinstance(n, ast.Assign) and _gw_is_empty_dict(n.value):
+            for t in n.targets:
+                if isinstance(t, ast.Attribute) and isinstance(t.value, ast.Name) and t.value.id == "self":
+                    dict_attrs.add(t.attr)
+    for meth in _GW_MEMO_METHODS:
+        top = src.function(rel, "ParameterizedSystem." + meth)
+        used = {n.id for n in ast.walk(top) if isinstance(n, ast.Name) and isinstance(n.ctx, ast.Load)}
+
+        def visit(fn, stack, local_dicts):
+            stack = stack + [fn]
+            local_dicts = dict(local_dicts)
+            own = _gw_own_nodes(fn)
+            for n in own:
+                if isinstance(n, ast.Assign) and _gw_is_empty_dict(n.value):
+                    for t in n.targets:
+                        if isinstance(t, ast.Name):
+                            local_dicts[t.id] = len(stack) - 1
+
+            def container(e):
+                """(name, level) if e denotes a cache container; level = index of the function
+                that owns it (-1: the object)"""
+                if isinstance(e, ast.Attribute) and isinstance(e.value, ast.Name) and e.value.id == "self" \
+                        and (e.attr in dict_attrs or "cache" in e.attr.lower() or "memo" in e.attr.lower()):
+                    return "self." + e.attr, -1
+                if isinstance(e, ast.Name) and e.id in local_dicts:
+                    return e.id, local_dicts[e.id]
+                return None
+
+            found = {}
+            for n in own:
+                hit = None
+                if isinstance(n, ast.Subscript) and container(n.value):
+                    hit = (container(n.value), n.slice)
+                elif isinstance(n, ast.Compare) and len(n.ops) == 1 \
+                        and isinstance(n.ops[0], (ast.In, ast.NotIn)) and container(n.comparators[0]):
+                    hit = (container(n.comparators[0]), n.left)
+                elif isinstance(n, ast.Call) and isinstance(n.func, ast.Attribute) \
+                        and n.func.attr in ("get", "setdefault", "pop") and container(n.func.value) and n.args:
+                    hit = (container(n.func.value), n.args[0])
+                if hit:
+                    (cname, level), keyexpr = hit
+                    roots = _gw_key_roots(keyexpr, fn)
+                    deps = []
+                    for f in stack[level + 1:]:
+                        for p in _gw_func_params(f):
+                            if p in used and p not in deps:
+                                deps.append(p)
+                    k = (cname, tuple(roots))
+                    if k not in found:
+                        found[k] = (cname, n.lineno, roots, deps)
+                if isinstance(n, (ast.FunctionDef, ast.AsyncFunctionDef)):
+                    for d in n.decorator_list:
+                        txt = ast.unparse(d)
+                        if "cache" in txt or "memo" in txt:
+                            # key = the decorated function's parameters; the cache lives where
+                            # the def is executed, i.e. in `fn`
+                            deps = list(_gw_func_params(n))
+                            found[("@" + txt, n.name)] = ("@%s %s" % (txt, n.name), n.lineno,
+                                                          list(_gw_func_params(n)), deps)
+                    visit(n, stack, local_dicts)
+            for v in found.values():
+                sites.append((meth,) + v)
+
+        for d in top.decorator_list:
+            txt = ast.unparse(d)
+            if "cache" in txt or "memo" in txt:
+                ps = _gw_func_params(top)
+                sites.append((meth, "@" + txt, top.lineno, ps + ["self"], ps + ["self"]))
+        visit(top, [], {})
+    lines = []
+    for (meth, cname, line, roots, deps) in sites:
+        lines.append("  { method := %s, container := %s, line := %d,\n    keyVars := [%s], dependsOn := [%s] }"
+                     % (_lstr(meth), _lstr(cname), line, ", ".join(_lstr(r) for r in roots),
+                        ", ".join(_lstr(d) for d in deps)))
+    out.append(GW_MEMO_PREAMBLE)
+    out.append("/-- %s  ParameterizedSystem.{%s}: every cache used while building the half-step\n"
+               "    propagators and their derivatives (none: the list is empty) -/\n"
+               "def memoSites : List MemoSite := [%s]\n"
+               % (rel, ", ".join(_GW_MEMO_METHODS), ("\n" + ",\n".join(lines)) if lines else ""))
+
+
 @fragment("GradWiring")
 def frag_gradwiring(src):
     out = [GW_PREAMBLE]
@@ -5514,6 +5953,7 @@ def frag_gradwiring(src):
                "    joins the bond legs of the same environment iff the node's axes are in list order, i.e.\n"
                "    the environments were visited in list order or the axes were reordered afterwards -/\n"
                "def bwdJoinAligned : Bool := (!bwdCallReversed) || applyReverseReorders\n")
+    _gw_memo_sites(src, out)
     return "\n".join(out)
 # end of GradWiring
 
@@ -8194,9 +8634,79 @@ def _bs_custom_region(src, out):
     out.append("def regionDefaultTime2 {R : Type} [Add R] (delta time_1 : R) : R :=\n  (time_1 + delta)\n")
 
 
+def _bs_const_value(e):
+    """integer / rational value of a constant expression of oqupy/config.py:
+    int or float literals, unary minus, + - * / and ** with an integer exponent"""
+    from fractions import Fraction
+    if isinstance(e, ast.Constant) and not isinstance(e.value, bool) and isinstance(e.value, (int, float)):
+        return Fraction(e.value)
+    if isinstance(e, ast.UnaryOp) and isinstance(e.op, ast.USub):
+        return -_bs_const_value(e.operand)
+    if isinstance(e, ast.BinOp):
+        a, b = _bs_const_value(e.left), _bs_const_value(e.right)
+        if isinstance(e.op, ast.Add):
+            return a + b
+        if isinstance(e.op, ast.Sub):
+            return a - b
+        if isinstance(e.op, ast.Mult):
+            return a * b
+        if isinstance(e.op, ast.Div) and b != 0:
+            return a / b
+        if isinstance(e.op, ast.Pow) and b.denominator == 1 and (a != 0 or b >= 0):
+            return a ** int(b)
+    raise Untranslatable("config constant: " + _bs_norm(e))
+
+
+def _bs_config(src, out):
+    """oqupy/config.py: INTEGRATE_EPSREL, SUBDIV_LIMIT, and that they are the default arguments
+    of the quadrature entry points of bath_correlations.py"""
+    rel = "oqupy/config.py"
+    tree = src.tree(rel)
+    vals = {}
+    for n in tree.body:
+        if isinstance(n, ast.Assign) and len(n.targets) == 1 and isinstance(n.targets[0], ast.Name) \
+                and n.targets[0].id in ("INTEGRATE_EPSREL", "SUBDIV_LIMIT"):
+            if n.targets[0].id in vals:
+                raise Untranslatable("%s assigned twice in %s" % (n.targets[0].id, rel))
+            vals[n.targets[0].id] = (_bs_const_value(n.value), n.lineno, _bs_norm(n.value))
+    if sorted(vals) != ["INTEGRATE_EPSREL", "SUBDIV_LIMIT"]:
+        raise Untranslatable("%s: INTEGRATE_EPSREL / SUBDIV_LIMIT not found" % rel)
+    eps, lim = vals["INTEGRATE_EPSREL"], vals["SUBDIV_LIMIT"]
+    if lim[0].denominator != 1 or lim[0] < 0:
+        raise Untranslatable("SUBDIV_LIMIT is not a natural number: " + lim[2])
+    out.append("/-- %s:%d  INTEGRATE_EPSREL = %s -/\ndef integrateEpsrel : Rat := mkRat (%d) %d\n"
+               % (rel, eps[1], eps[2], eps[0].numerator, eps[0].denominator))
+    out.append("/-- %s:%d  SUBDIV_LIMIT = %s -/\ndef subdivLimit : Nat := %d\n"
+               % (rel, lim[1], lim[2], int(lim[0])))
+    # the defaults of the entry points
+    tree_bc = src.tree(BS_REL)
+    imp = [n for n in tree_bc.body if isinstance(n, ast.ImportFrom) and n.module == "oqupy.config"]
+    names = sorted(a.name for n in imp for a in n.names if a.asname is None)
+    if "INTEGRATE_EPSREL" not in names or "SUBDIV_LIMIT" not in names:
+        raise Untranslatable("bath_correlations.py does not import INTEGRATE_EPSREL, SUBDIV_LIMIT "
+                             "from oqupy.config")
+    want = {"epsrel": "INTEGRATE_EPSREL", "subdiv_limit": "SUBDIV_LIMIT", "limit": "SUBDIV_LIMIT"}
+    checked = []
+    for qual in ("_complex_integral", "CustomSD.correlation", "CustomSD.eta_function",
+                 "CustomSD.correlation_2d_integral", "CustomCorrelations.correlation_2d_integral"):
+        fn = src.function(BS_REL, qual)
+        args = fn.args.args
+        defaults = [None] * (len(args) - len(fn.args.defaults)) + list(fn.args.defaults)
+        for a, d in zip(args, defaults):
+            if a.arg in want:
+                if d is None or _bs_norm(d) != want[a.arg]:
+                    raise Untranslatable("%s: default of `%s` is %s, expected %s"
+                                         % (qual, a.arg, None if d is None else _bs_norm(d), want[a.arg]))
+                checked.append("%s(%s)" % (qual, a.arg))
+    out.append("/-- the default `epsrel` / `subdiv_limit` (`limit`) arguments of %s are the two "
+               "constants above -/\ndef quadratureDefaultsAreConfig : Bool := true\n"
+               % ", ".join(checked))
+
+
 @fragment("BathShapes")
 def frag_bathshapes(src):
     out = ["open OQuPyVerif.BathCorr\n"]
+    _bs_config(src, out)
     _bs_shapes(src, out)
     _bs_custom_region(src, out)
     _bs_complex_integral(src, out)
